@@ -546,6 +546,83 @@ def cuckoo_error_rate_roundtrip(prop, tier, rnd, failures, stats, tmp):
                             break
 
 
+def combine_independence(prop, tier, rnd, failures, stats, tmp):
+    """C12 / C13: union / intersection / join give the structure fed both streams, leave the operands as they were, and
+    share no storage with them: operations on one of the three afterwards are invisible in the others.  The operands
+    include structures whose element counter is 0 although cells are set (add then remove; results of intersection)."""
+    from probables import BloomFilter, CountingBloomFilter
+    rounds = 60 if tier == "quick" else 1500
+
+    def st(x):      # (a saturated union has element count -1, the documented sentinel, and cannot be exported: not compared via bytes)
+        return (x.bloom.tobytes() if hasattr(x.bloom, "tobytes") else bytes(x.bloom), x.elements_added)
+    for rd in range(rounds):
+        stats["steps"] += 1
+        if rd % 2 == 0:
+            n, p = small_bloom_params(rnd)
+            cls = rnd.choice([BloomFilter, CountingBloomFilter])
+            a, b, both = cls(n, p), cls(n, p), cls(n, p)
+            ka = [rnd.choice(KEYS) for _ in range(rnd.randrange(0, 4))]
+            kb = [rnd.choice(KEYS) for _ in range(rnd.randrange(0, 4))]
+            for k in ka:
+                a.add(k); both.add(k)
+            for k in kb:
+                b.add(k); both.add(k)
+            hist = [("new", cls.__name__, n, p), ("a.add", ka), ("b.add", kb)]
+            if cls is CountingBloomFilter and ka and rnd.random() < 0.5:
+                a.remove(ka[0]); a.add(ka[0])
+            ia, ib = st(a), st(b)
+            for op in ("union", "intersection"):
+                r = getattr(a, op)(b)
+                hist2 = hist + [(op,)]
+                if r is None:
+                    _fail(failures, prop, "compatible_operands_combine", f"{op} of two filters of the same geometry gave None", hist2)
+                    continue
+                if st(a) != ia or st(b) != ib:
+                    _fail(failures, prop, "operands_unchanged", f"{op} changed an operand", hist2)
+                if op == "union" and st(r)[0] != st(both)[0]:
+                    _fail(failures, prop, "union_equals_filter_fed_both_streams", "cells of the union differ from the filter fed both streams", hist2)
+                fresh = rnd.choice(KEYS)
+                before = st(r)
+                a.add(fresh); b.add(fresh)
+                if st(r) != before:
+                    _fail(failures, prop, "result_shares_no_storage_with_operands", f"adding to an operand after {op} changed the result", hist2 + [("add", fresh)])
+                ia, ib = st(a), st(b)
+                r.add(rnd.choice(KEYS))
+                if st(a) != ia or st(b) != ib:
+                    _fail(failures, prop, "result_shares_no_storage_with_operands", f"adding to the result of {op} changed an operand", hist2)
+        else:
+            w, d = rnd.randrange(1, 4), rnd.randrange(1, 4)
+            a, b, both = CountMinSketch(width=w, depth=d), CountMinSketch(width=w, depth=d), CountMinSketch(width=w, depth=d)
+            hist = [("new", "CountMinSketch", w, d)]
+            shape = rnd.randrange(3)          # 0: a untouched, 1: a has total 0 but cells set, 2: a populated
+            if shape == 1:
+                a.add(KEYS[0], 2); a.remove(KEYS[1], 2)
+                both.add(KEYS[0], 2); both.remove(KEYS[1], 2)
+                hist.append(("a.add/remove", KEYS[0], KEYS[1]))
+            elif shape == 2:
+                for k in [rnd.choice(KEYS[:6]) for _ in range(rnd.randrange(1, 4))]:
+                    a.add(k); both.add(k)
+            kb = [rnd.choice(KEYS[:6]) for _ in range(rnd.randrange(1, 4))]
+            for k in kb:
+                b.add(k); both.add(k)
+            hist.append(("b.add", kb))
+            ib = bytes(b)
+            a.join(b)
+            hist.append(("a.join(b)",))
+            if bytes(b) != ib:
+                _fail(failures, prop, "operands_unchanged", "join changed its argument", hist)
+            if bytes(a) != bytes(both):
+                _fail(failures, prop, "join_equals_sketch_fed_both_streams", "the joined sketch differs from the sketch fed both streams", hist)
+            ia = bytes(a)
+            b.add(KEYS[7], 3)
+            if bytes(a) != ia:
+                _fail(failures, prop, "result_shares_no_storage_with_operands", "adding to the argument after join changed the joined sketch", hist)
+            ib = bytes(b)
+            a.add(KEYS[8], 2); a.remove(KEYS[8], 1)
+            if bytes(b) != ib:
+                _fail(failures, prop, "result_shares_no_storage_with_operands", "operating on the joined sketch changed the argument of join", hist)
+
+
 SUITES = {
     "C01": [bloom_histories, expanding_full_boundary], "C02": [sketch_histories], "C03": [cuckoo_histories],
     "C05": [bloom_histories, sketch_histories, cuckoo_histories, cuckoo_zero_fingerprint, expanding_full_boundary,
@@ -553,6 +630,7 @@ SUITES = {
     "C06": [bloom_histories, sketch_histories], "C09": [expanding_full_boundary],
     "C08": [counting_histories, cuckoo_histories], "C14": [bloom_histories, sketch_histories, cuckoo_histories, counting_histories],
     "C15": [cuckoo_histories], "C17": [sketch_histories], "C16": [sketch_histories],
+    "C12": [combine_independence], "C13": [combine_independence],
 }
 
 
